@@ -321,7 +321,7 @@ func C19SweepJobs(seed uint64, quick bool) []SweepJob {
 // ---------------------------------------------------------------------------
 // C11
 
-var c11Types = []string{"Wide", "Wide", "Inner", "Sym", "SymBox", "Maps", "MapKS", "JDoc", "V2", "[]byte", "string", "MyBytes", "[][]byte", "Node", "[]string", "Nest", "Tags", "JArr", "JNest", "[]any", "MapKV"}
+var c11Types = []string{"MNamed", "Ptrs", "Wide", "Wide", "Inner", "Sym", "SymBox", "Maps", "MapKS", "JDoc", "V2", "[]byte", "string", "MyBytes", "[][]byte", "Node", "[]string", "Nest", "Tags", "JArr", "JNest", "[]any", "MapKV"}
 var c11StructTypes = []string{"Wide", "Inner", "Sym", "SymBox", "Maps", "JDoc", "V2", "Node", "Small"}
 
 func GenC11(seed uint64, idx int) *Scenario {
@@ -411,7 +411,7 @@ func GenC11(seed uint64, idx int) *Scenario {
 // ---------------------------------------------------------------------------
 // C10
 
-var c10Types = []string{"MTarget", "MTarget", "MTarget", "Wide", "Wide", "Maps", "MapKS", "MapKV", "Node", "Sym", "V2", "JDoc", "[]int", "[]string", "Tree", "Nest", "NestD", "[][]int", "map[string][]int", "IDs", "Tags", "[]null.Int", "JArr", "JNest", "[]any"}
+var c10Types = []string{"MTarget", "MTarget", "MTarget", "MNamed", "Ptrs", "Zeros", "Wide", "Wide", "Maps", "MapKS", "MapKV", "Node", "Sym", "V2", "JDoc", "[]int", "[]string", "Tree", "Nest", "NestD", "[][]int", "map[string][]int", "IDs", "Tags", "[]null.Int", "JArr", "JNest", "[]any"}
 
 func GenC10(seed uint64, idx int) *Scenario {
 	r := engine.PRNG{S: engine.Mix(seed, 0xC10, uint64(idx))}
